@@ -41,6 +41,8 @@ def pipe_worker(tag, rec):
         na = 3 if rec['mp'] == 'spa' else 2
         for fi, text in enumerate(r['files']):
             for j, osx in enumerate(optsets(two)):
+                if rec.get('_nobf') and osx.get('bf'):
+                    continue          # (projects+1)^students assignments: brute force only on small instances
                 h = int(hashlib.sha1(('%s %s %s %s' % (key, sd, fi, j)).encode()).hexdigest()[:4], 16)
                 t = pipedrive.record_run(text, na, two, enumerate_cbc=(h % 5 == 0), **osx)
                 t['meta'] = {'key': key, 'seed': sd, 'file': fi, 'mp': rec['mp'], 'opts': {k: (v if k != 'crits' else [c['c'] for c in v]) for k, v in osx.items()}}
@@ -60,8 +62,9 @@ def main(tier, seed):
         def on_result(info):
             traces.extend(info['traces'])
 
-        def mk_flt(nseeds, every):
+        def mk_flt(nseeds, every, nobf=False):
             def flt(tag, rec):
+                rec['_nobf'] = nobf
                 k = genprops.key_of(rec)
                 if k in seen or not rec['accept']:
                     return False
@@ -72,15 +75,16 @@ def main(tier, seed):
                 rec['_seeds'] = [seed * 1000 + h % 997 + i for i in range(nseeds)]
                 return True
             return flt
-        plans = [('counts <= 2', 2, True, 1, 8 if q else 1), ('counts <= 3', 3, False, 1, 30 if q else 3)]
+        plans = [('counts <= 2', 2, True, 1, 12 if q else 1, None), ('counts <= 3', 3, False, 1, 30 if q else 3, None),
+                 ('larger counts (n1 5, n2 8, n3 6, lists up to 4), LP only', 4, False, 1, 45 if q else 4, {'n1': {5}, 'n2': {8}, 'n3': {6}})]
         if not q:
-            plans.append(('counts <= 4', 4, False, 1, 12))
-        for label, maxn, rich, nseeds, every in plans:
+            plans.append(('counts <= 4', 4, False, 1, 12, None))
+        for label, maxn, rich, nseeds, every, counts in plans:
             res = engine.tlc_replay(rep, pool, 'MC_Gen', pipe_worker,
                                     consts=dict(MaxN=maxn, NumInsts={1, 2}, Perturb=False, Generate=False,
-                                                TypesUsed={'ha', 'sm', 'hr', 'spa'}, Rich=rich, **genprops.count_sets(maxn)),
+                                                TypesUsed={'ha', 'sm', 'hr', 'spa'}, Rich=rich, **genprops.count_sets(maxn, counts)),
                                     spec='MSpec', invariants=['ParserOK', 'FamilySound', 'ExportArgs'], label=label,
-                                    on_result=on_result, export_filter=mk_flt(nseeds, every), timeout=3000)
+                                    on_result=on_result, export_filter=mk_flt(nseeds, every, nobf=counts is not None), timeout=3000)
             rep.notes.append('%s: %d legal argument vectors, every %d-th driven through generator and solver' % (label, res['exports'], every))
     finally:
         pool.close()
